@@ -198,6 +198,9 @@ def harness_for(item):
         lo_eff = N(lo) / 2 if a1 == "halve" else N(lo)
         hi_eff = N(hi) * 2 if a1 == "double" else N(hi)
         kw = dict(test_stat="qtilde", calctype="asymptotics")
+        if entry != "toms748_scan":
+            # every hypothesis-test option of the caller reaches every evaluation, bounds and start values included
+            kw.update(par_bounds=list(model.config.suggested_bounds()), init_pars=list(model.config.suggested_init()))
         with patched((UL, "hypotest", curves), (UL, "toms748", root), (UL, "np", _NP(env))):
             # the scan's own first evaluations (lo, then lo/2, hi, then 2*hi): constrain them as they appear
             orig_call = curves.__call__
